@@ -46,7 +46,10 @@ TDue  == Ev("Due") /\ At /\ Arrive /\ Consume
 TGot  == Ev("Got") /\ At /\ Len(queue) > 0 /\ SameReply(Head(queue), Trace[l]) /\ RGot /\ Consume
          /\ (Trace[l].err = "" /\ Trace[l].ttl >= MinTTL /\ Trace[l].ttl <= MaxTTL => Trace[l].rtt_us = (now - SentAt(Trace[l].ttl)) * Unit)
 TDeadline == Ev("Deadline") /\ At /\ RDeadline /\ Consume
-TCancel == Ev("Cancel") /\ At /\ ExtCancel /\ Consume
+\* The harness logs "Cancel" just before it calls cancel(); the instant at which the engine's goroutines observe the
+\* cancellation is not a logged linearization point, so the line itself is only a marker and ExtCancel is a silent step
+\* (enabled at the scripted instant; TLC explores its order against the other steps of that instant).
+TCancel == Ev("Cancel") /\ At /\ Consume /\ UNCHANGED vars
 HopsMatch(h, e) ==
     /\ Len(h) = Len(e)
     /\ \A k \in DOMAIN h :
@@ -57,7 +60,7 @@ TReturn == /\ Ev("Return") /\ At /\ Finish /\ Consume
            /\ out'.ok = Trace[l].ok
            /\ (out'.ok => HopsMatch(out'.hops, Trace[l].hops))
            /\ (~out'.ok => (out'.err = "canceled" <=> Trace[l].err.canceled))
-Silent == (SCheck \/ SWake \/ RStart \/ RLoop \/ TimeoutFire \/ Advance) /\ UNCHANGED l
+Silent == (SCheck \/ SWake \/ RStart \/ RLoop \/ TimeoutFire \/ ExtCancel \/ Advance) /\ UNCHANGED l
 
 TNext == TSend \/ TDue \/ TGot \/ TDeadline \/ TCancel \/ TReturn \/ Reset \/ Silent
 TSpec == TInit /\ [][TNext]_tvars
